@@ -461,3 +461,6 @@ var (
 	_ = rewardstypes.ModuleName
 	_ = subscriptiontypes.ModuleName
 )
+
+func bankSnap() map[string]sdk.Coins     { return testkeeper.VerifBankSnapshot() }
+func bankRestore(m map[string]sdk.Coins) { testkeeper.VerifBankRestore(m) }
